@@ -129,6 +129,16 @@ let dispatch kind (tk : toks) : string =
      | Some kids -> let b = Buffer.create 512 in
        Buffer.add_string b ("TREE errs=0 " ^ string_of_int (List.length kids)); List.iter (dump_pfield b) kids; Buffer.contents b
      | None -> "NONE")
+  | "regen" ->
+    (* regen <shape>: the column tree of the struct parquetgen -parquet regenerates from a file of that shape *)
+    let fs = shape (next tk) in
+    (match struct_of_schema (bytes_of_hex "526f6f74") (schema_of (columns fs)) with
+     | Some ds ->
+       (match parse_root ds (bytes_of_hex "526f6f74") with
+        | Some kids -> let b = Buffer.create 512 in
+          Buffer.add_string b ("TREE errs=0 " ^ string_of_int (List.length kids)); List.iter (dump_pfield b) kids; Buffer.contents b
+        | None -> "NONE")
+     | None -> "PANIC")
   | "foreign" ->
     (* foreign <shape> <file choice> <nbatches> (<n> records...)... : the file, hex *)
     let fs = shape (next tk) in
